@@ -1,7 +1,7 @@
 (* C19 — examples next to the theorems of Props.v: the hypotheses are satisfiable and the
    conclusions are not vacuous. *)
 From Verif.Base Require Import Tactics.
-From Verif.C19 Require Import Types Extracted Model Spec Proofs.
+From Verif.C19 Require Import Types Extracted Model Spec Commands Proofs.
 
 (* ------------------------------------------------------------------ examples (hypotheses are satisfiable,
    conclusions are not vacuous) *)
@@ -60,4 +60,89 @@ Proof.
   cbv zeta. split; [vm_compute; reflexivity|]. split; [|vm_compute; reflexivity].
   repeat match goal with |- Forall _ _ => constructor end; try exact I.
   right. simpl. lia.
+Qed.
+
+(* ------------------------------------------------------------------ command level *)
+(* forget (get_all_snapshots = update_from_backend, then delete), while another process removes
+   a snapshot and a truncated index file sits in the cache; then a backup (latest snapshot as
+   parent, index read, new index and snapshot written); from the faulty cache ex_cache *)
+Definition ex_history : list hitem :=
+  [ HStep (CAccess SnapUpdateFromBackend Snapshot [] [1%N]);
+    HStep (CRemove Snapshot 1%N false);
+    HEnv (EBeWrite Snapshot 6%N (ex_content (Snapshot, 6%N)));
+    HEnv (EPlant Index 2%N [2%N]);
+    HStep (CAccess SnapLatest Snapshot [] [6%N]);
+    HStep (CAccess IndexOnlyFullTrees Index [] [2%N]);
+    HStep (CWrite Index 8%N false (ex_content (Index, 8%N)));
+    HStep (CWrite Snapshot 7%N false (ex_content (Snapshot, 7%N)));
+    HStep (CAccess StreamAll Snapshot [] [7%N]) ].
+
+Example ex_commands :
+  forallb good_item ex_history = true /\
+  Forall (op_honest ex_content) (history_ops ex_history) /\
+  fst (run_c (history_ops ex_history) (mkst ex_cache ex_be)) = fst (run_u (history_ops ex_history) ex_be) /\
+  (* not vacuous: the truncated snapshot 1 would have been served without the listing *)
+  In (RData (Some (ex_content (Snapshot, 1%N)))) (fst (run_c (history_ops ex_history) (mkst ex_cache ex_be))).
+Proof.
+  split; [vm_compute; reflexivity|]. split.
+  - vm_compute. repeat match goal with |- Forall _ _ => constructor end; try exact I; try reflexivity.
+    right. simpl. lia.
+  - split; [vm_compute; reflexivity|]. vm_compute. tauto.
+Qed.
+
+(* the un-listed reader: the stale snapshot 3 of ex_cache read by its full id *)
+Example ex_explicit_id :
+  unlisted_access (CAccess SnapFromStrId Snapshot [] [3%N]) = true /\
+  fst (run_c (cstep_ops (CAccess SnapFromStrId Snapshot [] [3%N])) (mkst ex_cache ex_be)) = [RData (Some (ex_content (Snapshot, 3%N)))] /\
+  fst (run_u (cstep_ops (CAccess SnapFromStrId Snapshot [] [3%N])) ex_be) = [RData None].
+Proof. vm_compute. auto. Qed.
+
+(* check with a stale (4), a truncated (5) and a good (6) tree pack in the cache *)
+Definition ex_be_packs : fmap :=
+  ex_be ++ [((Pack, 5%N), ex_content (Pack, 5%N)); ((Pack, 6%N), ex_content (Pack, 6%N))].
+Definition ex_cache_packs : cache :=
+  mkcache (files ex_cache ++ [((Pack, 4%N), ex_content (Pack, 4%N)); ((Pack, 5%N), [5%N]); ((Pack, 6%N), ex_content (Pack, 6%N))]) [].
+Example ex_check :
+  let pre := [HStep (CListSize Snapshot []); HStep (CListSize Index []); HStep (CAccess StreamAll Index [] [2%N])] in
+  let l := [(5%N, 3%nat); (6%N, 3%nat)] in
+  let post := [OReadPartial Pack 5%N true 1 2; OReadPartial Pack 6%N true 0 3; OReadPartial Pack 4%N true 0 1; OReadFull Pack 5%N] in
+  forallb good_item pre = true /\ PacksListed l (snd (run_u (history_ops pre) ex_be_packs)) /\
+  forallb pack_read post = true /\
+  fst (run_c (history_ops pre ++ OCleanPacks l [] :: post) (mkst ex_cache_packs ex_be_packs)) =
+  fst (run_u (history_ops pre ++ OCleanPacks l [] :: post) ex_be_packs) /\
+  files (cch (snd (run_c (history_ops pre ++ [OCleanPacks l []]) (mkst ex_cache_packs ex_be_packs)))) =
+    [((Index, 2%N), ex_content (Index, 2%N)); ((Pack, 6%N), ex_content (Pack, 6%N))].
+Proof.
+  cbv zeta. split; [vm_compute; reflexivity|]. split.
+  - intros i n H. simpl in H. destruct H as [H|[H|[]]]; inv H; vm_compute; eauto.
+  - split; [vm_compute; reflexivity|]. split; vm_compute; reflexivity.
+Qed.
+
+(* the steps of ex_history are steps of forget, backup and prune *)
+Example ex_cmd_items : Forall cmd_item ex_history.
+Proof.
+  unfold ex_history.
+  repeat (constructor;
+          [first [ reflexivity
+                 | exists CmdForgetAll; split; vm_compute; reflexivity
+                 | exists CmdBackup; split; vm_compute; reflexivity
+                 | exists CmdPrune; split; vm_compute; reflexivity ] |]).
+  constructor.
+Qed.
+
+(* tree-pack reads without clean-up: pack 5 truncated, pack 6 good, pack 4 stale (not read) *)
+Example ex_indexed_pack_reads :
+  let ops := [OReadPartial Pack 5%N true 1 2; OReadPartial Pack 5%N true 0 1; OReadPartial Pack 6%N true 2 1; OReadPartial Pack 6%N false 0 9] in
+  BeHonest ex_content ex_be_packs /\ PackPrefix ex_content ex_cache_packs /\ Forall (indexed_pack_read ex_be_packs) ops /\
+  fst (run_c ops (mkst ex_cache_packs ex_be_packs)) = [RData (Some [7%N; 7%N]); RData (Some [5%N]); RData (Some [7%N]); RData None].
+Proof.
+  cbv zeta. split.
+  - intros k d H. unfold ex_be_packs, ex_be in H. simpl in H. repeat (destruct H as [H|H]; [inv H; reflexivity|]). contradiction.
+  - split.
+    + intros i d F. simpl in F.
+      repeat match type of F with (if ?b then _ else _) = _ => destruct b eqn:? end; try discriminate; inv F;
+      match goal with H : key_eqb _ _ = true |- _ => apply key_eqb_eq in H; inv H end;
+      [exists [] | exists [7%N; 7%N] | exists []]; reflexivity.
+    + split; [|vm_compute; reflexivity].
+      repeat constructor; simpl; try lia; discriminate.
 Qed.
